@@ -332,6 +332,43 @@ func runC04(c *Ctx) {
 		return cc != nil && !cc.IsInvoke() && PathOf(cc.Value) == P(Owner(i), 4)
 	}, "the request callback")
 	single("agent.forwardRequest", "forwardRequest→handler", func(i ssa.Instruction) bool { return IsCall(i, "(net/http.Handler).ServeHTTP") }, "hostProxy.ServeHTTP")
+	// the request ID travels to the proxy in its header only: the URL of the fetch is the proxy
+	// host plus a constant path. An ID spliced into the URL unescaped (as a query parameter "for
+	// the access logs") makes the request line malformed for IDs with blanks — the proxy's HTTP
+	// server answers 400 before the handler runs and the request is never forwarded
+	if f := c.need(p, "C04.F", "agent/utils.ReadRequest"); f != nil {
+		bad := ""
+		n := 0
+		idParam := ParamAt(f, 3)
+		EachInstr(f, func(i ssa.Instruction) {
+			cc := CallOf(i)
+			if cc == nil {
+				return
+			}
+			var u ssa.Value
+			switch CalleeName(cc) {
+			case "net/http.NewRequest":
+				u = PArgs(cc)[1]
+			case "net/http.NewRequestWithContext":
+				u = PArgs(cc)[2]
+			case ModPath + "/agent/utils.getRequestWithRetries":
+				u = PArgs(cc)[1] // the URL it is given
+			default:
+				return
+			}
+			if u == nil {
+				return
+			}
+			n++
+			SliceBack(u, func(v ssa.Value) bool {
+				if idParam != nil && v == ssa.Value(idParam) {
+					bad = "the URL built at " + p.Pos(i.Pos()) + " contains the request ID"
+				}
+				return true
+			})
+		})
+		c.Check("C04.F", "fetch:request-id-travels-in-the-header-only", p, f.Pos(), bad == "" && n >= 1, fmt.Sprintf("%d fetch request(s) built: no URL depends on the request ID", n), bad+": an ID with a blank (or another character that is not legal in a request target) yields a malformed request line, the fetch is refused with 400 and the request is never forwarded")
+	}
 	// forwardRequest has no other callers, processOneRequest is only started by the poller
 	{
 		n, m := 0, 0
